@@ -1112,6 +1112,22 @@ func genShape(r *rand.Rand, i int) shape {
 	// calls
 	s.calls = append(s.calls, callJ{K: "h"})
 	left := n
+	cross := i%4 == 3 && n >= 4
+	if cross {
+		// the first chunk stays in memory, the second one crosses the in-memory limit (the spill file
+		// is created by a call that first has to dump the memory part), the limit is far
+		k1 := 1 + r.Intn(n/2)
+		k2 := 1 + r.Intn(n-k1)
+		s.cfg.Mem = int64(k1 + r.Intn(k2))
+		s.cfg.Limit = int64(n + 1 + r.Intn(50))
+		s.calls = append(s.calls, callJ{K: "w", N: k1}, callJ{K: "w", N: k2})
+		left -= k1 + k2
+		if left > 0 {
+			s.calls = append(s.calls, callJ{K: "w", N: left})
+			left = 0
+		}
+		s.kind += "/cross"
+	}
 	for w := 1 + r.Intn(3); w > 0 && left > 0; w-- {
 		k := left
 		if w > 1 {
@@ -1121,7 +1137,7 @@ func genShape(r *rand.Rand, i int) shape {
 		left -= k
 	}
 	s.calls = append(s.calls, callJ{K: "p"}, callJ{K: "l"})
-	if r.Intn(6) == 0 { // anomalous orders
+	if !cross && r.Intn(6) == 0 { // anomalous orders
 		a, b := r.Intn(len(s.calls)), r.Intn(len(s.calls))
 		s.calls[a], s.calls[b] = s.calls[b], s.calls[a]
 	}
@@ -1264,6 +1280,22 @@ func Run(cfg vh.Config) (*vh.Result, error) {
 			Case json.RawMessage `json:"case"`
 		}
 		c := &caseJ{}
+		raw := b
+		if json.Unmarshal(b, &doc) == nil && len(doc.Case) > 0 {
+			raw = doc.Case
+		}
+		hc := &httpCaseJ{}
+		if json.Unmarshal(raw, hc) == nil && hc.Kind == "http" {
+			he, err := newHTTPEnv(filepath.Join(base, "http"))
+			if err != nil {
+				return nil, err
+			}
+			hc.TmpLeft, hc.UpLeft, hc.Records, hc.Panicked, hc.ClientErr = nil, nil, 0, "", ""
+			res.OracleFailures = append(res.OracleFailures, runHTTPCase(he, hc)...)
+			res.OracleEvaluations++
+			res.Shards = []vh.ShardInfo{}
+			return res, nil
+		}
 		if json.Unmarshal(b, &doc) == nil && len(doc.Case) > 0 {
 			err = json.Unmarshal(doc.Case, c)
 		} else {
@@ -1293,6 +1325,10 @@ func Run(cfg vh.Config) (*vh.Result, error) {
 			return nil, err
 		}
 		res.InputDistribution["corpus"]++
+	}
+	// the middleware family (oracle only)
+	if err := runHTTPFamily(base, res); err != nil {
+		return nil, err
 	}
 	r := vh.Rng(cfg.Seed, "c20")
 	nShapes := cfg.Pick(16, 240)
